@@ -100,6 +100,13 @@ func grammarSentence(rt *rapid.T) (string, bool) {
 
 var tinyDoc = `{"a":[1,{"b":2,"a":"x"}],"b":{"a":1}}`
 
+// hardDocs: members of every type under the names the generators use, numbers at and beyond the
+// float64 range (decoded with UseNumber).
+var hardDocs = []string{
+	`[{"a":1,"b":"x"},{"a":1e400,"b":2},{"a":3,"b":null},{"a":"s","b":[1e999]},{"a":-1e400},{"a":true},{"a":null},{"a":[1]},{"a":{"a":2}},{"b":1},5,1e999,"s",null,[1,1e400]]`,
+	`{"a":[1,1e400,"x",null,{"a":1e999,"b":1}],"b":{"a":1e400,"b":-1e999,"c":[{"a":1},{"a":1e400}]},"c":1e999,"d":"x","list":[{"v":1},{"v":1e999},{"v":"1"}],"x":1e400,"y":1}`,
+}
+
 // parseOutcome validates the (f, err) pair of Parse; returns "" when it is one of the two
 // documented shapes.
 func parseOutcome(f func(interface{}) ([]interface{}, error), err error) string {
@@ -180,6 +187,15 @@ func checkC02(c *Case, st *Stats) string {
 		st.Eval(1)
 		if msg := runtimeOutcome(out, e2); msg != "" {
 			return "parsed function on a small document: " + msg
+		}
+		// ... also on documents with every JSON type side by side, decoded with UseNumber, holding
+		// numbers only json.Number can hold
+		for _, hd := range hardDocs {
+			out, e2 = f(gen.MustDecode(hd, true))
+			st.Eval(1)
+			if msg := runtimeOutcome(out, e2); msg != "" {
+				return "parsed function on " + hd + " (UseNumber): " + msg
+			}
 		}
 	}
 	if msg := severalConfigs(c, st); msg != "" {
